@@ -339,9 +339,11 @@ REGISTRY = {
                       'the rest of the graph code (set algebra, '
                       'comprehensions over sets, sort with key, numpy inf) '
                       'is outside the pyvc subset and only checked inside '
-                      'the bound; UnitaryMatrix/UnitaryBuilder tensor '
-                      'arithmetic is floating point and not decided; '
-                      'shortest-path diagonal not compared',
+                      'the bound; UnitaryMatrix.otimes / ipower and '
+                      'UnitaryBuilder.apply_* / eval_apply_* are compared '
+                      'with explicit Kronecker products on Haar unitaries of '
+                      'small mixed-radix registers (floating point, 1e-10: '
+                      'sampled); shortest-path diagonal not compared',
         'parts': [
             {'kind': 'custom', 'module': 'pybound.c20_checks'},
             {'kind': 'pyvc', 'module': 'contracts.c20'},
